@@ -70,6 +70,7 @@ def cases(ctx):
             r = ['star', ['cat', ['cat', x, ['star', ['cat', x, y]]], y]]
         if not thorough or ctx.mine(i):
             yield {'r': r, 'words': gen.all_words(Sig, 6)}
+    yield {'r': ['star', ['sum', ['sym', 'ab'], ['sym', 'c']]], 'words': [], 'multi': True, 'long': ['ab' * 230, 'ab' * 229 + 'c', 'ab' * 229 + 'a', 'c' * 470]}
     # identifiers of several letters (parse_regexp allows them): a symbol is matched against the whole word, w == symbol
     for i in range(80 if not thorough else 800):
         Sg = rng.choice([['ab', 'a', 'b'], ['x1', 'x2'], ['ab', 'ba'], ['abc', 'a']])
@@ -133,6 +134,11 @@ def judge(ctx, c, answers):
         elif la.get('ok') != exp:
             ctx.violation('correspondence:regexp_matches', {'case': dict(c, words=[w]), 'impl': got, 'model': la}, no_input=True)
         ctx.count('match' if exp else 'nomatch')
+    for w in c.get('long', []):        # words of several hundred letters (string-level oracle, no model)
+        got = call(regexp_accepts_word, r, w, limit=60)
+        exp = string_matches(c['r'], w)
+        if got != {'ok': exp}:
+            ctx.violation('regexp-acceptance', {'case': dict(c, words=[], long=[w]), 'impl': got, 'expected': exp})
     s = call(regexp_simplify, r)
     if 'ok' not in s:
         ctx.violation('regexp-simplify-raises', {'case': dict(c, words=[]), 'impl': s})
